@@ -62,4 +62,19 @@ def scenario (w : Wire) (wd : World) : Outcome :=
     commitments := if funded then 1 else 0,
     engineSaw := if funded then 1 else 0 }
 
+/-- what became of a stake / prepay transaction -/
+inductive TxFate where
+  | minedOk | reverted | rejected
+  deriving Repr, DecidableEq
+
+/-- the stake / prepay operation reports success only for a transaction mined successfully -/
+def opReportsSuccess : TxFate → Bool
+  | .minedOk => true
+  | _ => false
+
+/-- a transaction reaches the chain unless the node rejected it -/
+def opTxSeen : TxFate → Bool
+  | .rejected => false
+  | _ => true
+
 end MevCommit.Wiring
